@@ -24,7 +24,7 @@ from vf.props.common import harness_error, inconclusive, proved, violation
 ID = "C10"
 LEVEL = "model_checking"
 ITEM_BUDGET_S = {"quick": 300, "thorough": 900}
-QT = {"quick": 15000, "thorough": 60000}
+QT = {"quick": 15000, "thorough": 30000}
 _TIER = "quick"
 TOL = 1e-8
 
@@ -59,7 +59,11 @@ def grid(tier):
     scal_l = [X, P, ("bin", "+", ("bin", "*", X, Y), ("num", 1.0)), ("bin", "+", ("bin", "*", P, X), Y),
               # vector reductions over views (the compiled fun and its jac take different routes)
               ("dot", rv, w), ("dot", v, rv), ("quad", rv, [[float((i * 2 + j * 3) % 5) for j in range(n)] for i in range(n)]),
-              ("lincomb", [1.0, 2.0, 3.0, 4.0][:n], ("slice", v, 0, n, 2) if n < 3 else ("slice", v, None, None, -2))]
+              ("lincomb", [1.0, 2.0, 3.0, 4.0][:n], ("slice", v, 0, n, 2) if n < 3 else ("slice", v, None, None, -2)),
+              # a reduction in reflected position: number - f(x), number / ..., number * f(x)
+              ("bin", "-", ("num", 1.0), ("vsum", v)), ("bin", "-", ("const", S("r")), ("lincomb", [1.0, 2.0, 3.0, 4.0][:n], v)),
+              ("bin", "-", ("num", 4.0), ("dot", v, v)), ("bin", "*", ("num", -2.0), ("bin", "-", ("num", 1.0), ("vsum", ("vpow", v, 2)))),
+              ("bin", "+", ("num", 1.0), ("un", "neg", ("vsum", v)))]
     scal_r = [("py", "int", 3), ("py", "float", S("r")), ("np", "float64", 2.5), ("np", "int64", 3), ("np", "arr0", 2.5),
               Y, P, ("bin", "*", Y, ("num", 2.0)), ("py", "float", 0.0)]
     vec_l = [v, ("vbin", "+", v, w), rv]
